@@ -73,6 +73,8 @@ def _bounded_chunk(a, maxp):
         return int(m.group(1)) <= 16 * 1024
     if isinstance(a, tuple) and a[0] == 'mutvar':
         return _bounded_chunk(strip(a[3]), maxp)
+    if chunk_bound_ok(a, maxp):
+        return True
     if isinstance(a, tuple) and a[0] in ('lit', 'const') and isinstance(a[1] if a[0] == 'lit' else a[2], int):
         return (a[1] if a[0] == 'lit' else a[2]) <= 16 * 1024
     return False
